@@ -138,7 +138,11 @@ impl<T: Abs> Abs for core::ops::Bound<T> {
 }
 fn seq<'a, T: Abs + 'a>(it: impl Iterator<Item = &'a T>) -> Value { json!({"k":"seq","xs": it.map(|x| x.to_abs()).collect::<Vec<_>>()}) }
 fn sorted(mut xs: Vec<Value>) -> Value { xs.sort_by_key(|v| v.to_string()); json!({"k":"seq","xs":xs}) }
-fn gen_len(rng: &mut StdRng, d: u32) -> usize { if d > 2 { rng.gen_range(0..2) } else { match rng.gen_range(0..8) { 0 => 0, 1 => 23, 2 => 24, 3 => 25, _ => rng.gen_range(0..5) } } }
+/// Set for the last value an exercise loop draws: its outermost collection gets a few hundred elements (budgets that are per
+/// decoder rather than per nesting level - depth guards, counters, buffers - only show on values with many items).
+pub static MANY: core::sync::atomic::AtomicBool = core::sync::atomic::AtomicBool::new(false);
+pub fn set_many(on: bool) { MANY.store(on, core::sync::atomic::Ordering::Relaxed) }
+fn gen_len(rng: &mut StdRng, d: u32) -> usize { if d == 0 && MANY.load(core::sync::atomic::Ordering::Relaxed) { [130usize, 256, 300][rng.gen_range(0..3)] } else if d > 2 { rng.gen_range(0..2) } else { match rng.gen_range(0..8) { 0 => 0, 1 => 23, 2 => 24, 3 => 25, _ => rng.gen_range(0..5) } } }
 impl<T: Abs> Abs for Vec<T> { fn to_abs(&self) -> Value { seq(self.iter()) } fn gen(rng: &mut StdRng, d: u32) -> Self { (0..gen_len(rng, d)).map(|_| T::gen(rng, d + 1)).collect() } }
 impl<T: Abs> Abs for VecDeque<T> {
     fn to_abs(&self) -> Value { seq(self.iter()) }
@@ -273,8 +277,10 @@ pub fn decode_report<T: Full>(b: &[u8]) -> Value {
 #[cfg(feature = "std")]
 /// Events for one random value of T: round trip ("rt"), a re-framed alternative encoding ("alt"), a mutation ("mut").
 pub fn exercise<T: Full>(name: &str, rng: &mut StdRng, sink: &mut crate::gen::Sink, n: usize, want: &str) {
-    for _ in 0..n {
+    for i in 0..n {
+        set_many(i + 1 == n && want != "mut");
         let v = T::gen(rng, 0);
+        set_many(false);
         let val = v.to_abs();
         let enc = match minicbor::to_vec(&v) { Ok(b) => b, Err(_) => continue };
         sink.distinct_inputs += 1;
